@@ -143,6 +143,7 @@ var mutantCatalogue = map[string][]mutant{
 		{Name: "queue dispatch forgets the branch flag", File: "proc/mvp7-1/cu.go", Old: "\t\t\tif runner.Runner.InstructionType().IsConditionalBranch() {\n\t\t\t\tu.pendingConditionalBranch = true\n\t\t\t}\n\t\t} else {\n\t\t\tu.skippedInCurrentCycle = append(u.skippedInCurrentCycle, runner)", New: "\t\t} else {\n\t\t\tu.skippedInCurrentCycle = append(u.skippedInCurrentCycle, runner)"},
 	},
 	"C03": {
+		{Name: "stop answer of the dispatch decision inverted", File: "proc/mvp6-1/cu.go", Old: "\t\tif stop {\n", New: "\t\tif !stop {\n"},
 		{Name: "units stepped after a flush request do not see the limit", File: "proc/mvp6-1/cpu.go", Old: "\t\t\teu.sequenceID = sequenceID\n\t\t\tresp := eu.Cycle(euReq{cycle, m.ctx, app})", New: "\t\t\tresp := eu.Cycle(euReq{cycle, m.ctx, app})"},
 		{Name: "fetched pcs behind a jump are kept", File: "proc/mvp6-1/fu.go", Old: "fu.outBus.Clean()", New: "_ = fu"},
 		{Name: "sequence filter applies when NO limit is set", File: "proc/mvp6-3/wu.go", Old: "if r.sequenceID != -1 && execution.SequenceID > r.sequenceID {", New: "if r.sequenceID == -1 && execution.SequenceID > r.sequenceID {"},
